@@ -397,7 +397,6 @@ def run(prog, tier) -> Result:
         run_scenario(prog, res, "R07.4", "Term.num_elem/split", f"num_elem/split of {label(spec) or 'empty'}", body_s, judge_s)
 
     # ---- structural rules
-    term_rules(prog, res)          # eq key == hash key (shared with C19)
     writes = inventory(prog, ["quantity.term"])
     cg = CallGraph(prog)
     check_ownership(res, "R07.5", writes, "_items", {"Term.__init__": {"="}}, cg)
